@@ -12,6 +12,7 @@ import JsonV.Model.Pointer
 import JsonV.Spec.PointerSpec
 import JsonV.Lemmas.PointerEsc
 import JsonV.Lemmas.PointerOps
+import JsonV.Lemmas.PointerValid
 
 namespace JsonV.Props.C16
 open JsonV JsonV.Model JsonV.Model.Pointer JsonV.Spec.Pointer JsonV.Lemmas.Pointer
@@ -63,6 +64,30 @@ theorem contains_iff_prefix (ts us : List Bytes) :
 theorem contains_spec (p q : Bytes) : contains p q = true ↔ ∃ s, q = p ++ s ∧ (s = [] ∨ ∃ r, s = cSlash :: r) :=
   contains_iff p q
 
+/-! ### IsValid -/
+
+/-- Doc comment of `IsValid`: "the concatenation of two valid pointers produces a valid pointer". -/
+theorem isValid_append (p q : Bytes) (hp : isValid p = true) (hq : isValid q = true) : isValid (p ++ q) = true :=
+  Lemmas.Pointer.isValid_append p q hp hq
+
+/-- A valid pointer is the rendering of its own token list (so `Tokens` loses nothing). -/
+theorem isValid_render (p : Bytes) (h : isValid p = true) : p = render (tokens p) := Lemmas.Pointer.isValid_render p h
+
+/-- For valid pointers: `p.Contains(q)` iff the tokens of `p` are a prefix of the tokens of `q`. -/
+theorem contains_iff_prefix_valid (p q : Bytes) (hp : isValid p = true) (hq : isValid q = true) :
+    contains p q = true ↔ IsPrefix (tokens p) (tokens q) := by
+  have h := contains_render (tokens p) (tokens q)
+  rwa [← Lemmas.Pointer.isValid_render p hp, ← Lemmas.Pointer.isValid_render q hq] at h
+
+/-- For a valid pointer, re-appending its tokens rebuilds it, provided the tokens are what Go's `range` reads
+(always true for well-formed UTF-8, which `IsValid` demands of `p` but escapes may hide in tokens: see `sanitize`). -/
+theorem rebuild_valid (p : Bytes) (h : isValid p = true) (hs : (tokens p).map sanitize = tokens p) :
+    (tokens p).foldl appendToken [] = p := by
+  rw [foldl_appendToken, List.nil_append, hs, ← Lemmas.Pointer.isValid_render p h]
+
+example : isValid [0x2f, 0x61, 0x7e, 0x31] = true := by decide
+example : isValid [0x2f, 0x7e] = false := by decide
+example : isValid [0x2f, 0xff] = false := by decide
 example : contains (render [[0x61]]) (render [[0x61], [0x7e, 0x2f]]) = true :=
   (contains_iff_prefix _ _).2 ⟨[[0x7e, 0x2f]], rfl⟩
 example : lastToken (appendToken [0x2f, 0x61] [0x7e, 0x2f]) = [0x7e, 0x2f] := by decide
